@@ -4,10 +4,18 @@ from pgradd.GroupAdd.Group import Group
 from pgradd.GroupAdd.Library import GroupLibrary
 
 
-def mk(spec):
+class _Scheme(object):
+    """stand-ins for scheme objects: identity of a group must not depend on them"""
+
+
+SCHEMES = [None, _Scheme(), _Scheme()]
+
+
+def mk(spec, k=0):
+    sch = SCHEMES[k % len(SCHEMES)]
     if spec['op'] == 'ctor':
-        return Group(None, spec['c'], list(spec['ps']))
-    return Group.parse(None, spec['text'])
+        return Group(sch, spec['c'], list(spec['ps']))
+    return Group.parse(sch, spec['text'])
 
 
 def outcome(spec):
@@ -20,7 +28,7 @@ def outcome(spec):
 
 def klass(members):
     """members: specs that must all denote one group."""
-    gs = [mk(m) for m in members]
+    gs = [mk(m, k) for k, m in enumerate(members)]
     g0 = gs[0]
     d = {g0: 'v'}
     lib = GroupLibrary(None, {g0: {'thermochem': 'v'}})
@@ -39,7 +47,7 @@ def klass(members):
 
 
 def cross(a, b):
-    ga, gb = mk(a), mk(b)
+    ga, gb = mk(a, 0), mk(b, 1)
     return {'eq': bool(ga == gb) or bool(gb == ga) or not bool(ga != gb),
             'dict': {ga: 1}.get(gb) is not None,
             'streq': bool(ga == gb.name)}
